@@ -85,6 +85,12 @@ class C10(Cfg):
                 d.setdefault((e.lst, e.key), set()).add(e.date)
             return any(len(v) > 1 for v in d.values())
 
+        def conflicting_tie(vs):
+            d = {}
+            for e in history(vs):
+                d.setdefault((e.lst, e.key, e.date), set()).add(e.payload)
+            return any(len(v) > 1 for v in d.values())
+
         def raw_right(vs):
             return any(e.lst.endswith(".r") and e.payload == (False, True) for e in history(vs))
 
@@ -168,7 +174,9 @@ class C10(Cfg):
                         sig = "paths-disagree"
                         pm, po = parse_matrix(ref), parse_matrix(out)
                         via_reload = "reload" in how or "reload" in ref_how
-                        if via_reload and "none" in (ref, out) and incomplete(vs):
+                        if conflicting_tie(vs):
+                            sig = "same-date-conflicting-entries"
+                        elif via_reload and "none" in (ref, out) and incomplete(vs):
                             sig = "reload-drops-room-without-group-or-admin"
                         elif via_reload and pm and po and raw_right(vs):
                             selfbits = self_bit_positions()
